@@ -3,6 +3,7 @@
 
 pub mod c03;
 pub mod c04;
+pub mod c10;
 pub mod c11;
 pub mod c12;
 pub mod c13;
